@@ -14,6 +14,7 @@ import PqlModel.Props.C07OperatorIRSummarize
 import PqlModel.Props.C07OperatorIRRender
 import PqlModel.Props.C07OperatorIRJoin
 import PqlModel.Props.C07OperatorIRParse
+import PqlModel.Props.IRHeadlinesC
 #print axioms Pql.C13.C13_either
 #print axioms Pql.C13.C13_arity_table
 #print axioms Pql.C13.C13_arity_agrees
@@ -37,3 +38,6 @@ import PqlModel.Props.C07OperatorIRParse
 #print axioms Pql.ExprIR.C01_writeExpression_ir
 #print axioms Pql.ExprIR.known_eq
 #print axioms Pql.ExprIR.C06_compile_ir
+#print axioms Pql.IRHead.C13_exact_ir
+#print axioms Pql.IRHead.C13_builtin_arity_ir
+#print axioms Pql.IRHead.C13_on_translated_code
